@@ -11,9 +11,10 @@
 //!           say "It is okay to push more data after the first error"), then
 //!           `finalize`,
 //!       (c) `SymbolConverter`, for every split of the string into <= 3
-//!           tokens, both driven directly through `ConvertSymbols` (with
-//!           `EndOfToken` markers like the zonefile scanner does) and through
-//!           the library's own `IterScanner::convert_entry/convert_token`;
+//!           tokens driven directly through `ConvertSymbols` (with
+//!           `EndOfToken` markers like the zonefile scanner does), and for
+//!           every split into <= 2 tokens also through the library's own
+//!           `IterScanner::convert_entry/convert_token`;
 //!   * an alphabet sweep: every pair of characters from U+0000..U+017F plus
 //!     a few look-alikes, and every such character at every position of a
 //!     full group (checks the whole decode table and the ASCII-only rule);
@@ -866,7 +867,10 @@ fn check_text<S: Subject>(chars: &[char], sc: &mut Scratch, splits: bool, l: &mu
         // through the library's IterScanner (its tokens are presentation
         // format: a backslash starts an escape sequence, which is scanner
         // syntax and not codec input, so such texts only go the direct way)
-        if has_backslash {
+        // The scanner route is run for the 1- and 2-token splits; the
+        // 3-token splits go the direct way only (IterScanner::convert_entry
+        // does not even forward token boundaries to the converter).
+        if has_backslash || (i < n && j < n) {
             return;
         }
         let mut toks: [&str; 3] = ["", "", ""];
